@@ -195,7 +195,24 @@ def bitwidth(repo: Repo, rep: Report) -> Optional[int]:
             assign(st, env)
     state = {k: v for k, v in env.items() if k.startswith("self.")}
     if not state or max(state.values()) >= BIG:
-        rep.undecide("RNG-4", f"initial state widths unknown: {state}")
+        # some state word is not bounded for arbitrary seeds: look for a seed whose output leaves [0, 2**32)
+        try:
+            cw = ClassWorld([mod])
+            for seed in (0, 1, 2 ** 31, 2 ** 32 - 1, 2 ** 32, 2 ** 32 + 5, 1700000000123, 2 ** 40 + 3, -1, -(2 ** 33)):
+                g = cw.new("XorShift", seed)
+                for k in range(4):
+                    cw.ev.steps = 0
+                    v = cw.method(g, "next")()
+                    if not (isinstance(v, int) and 0 <= v < 2 ** 32):
+                        rep.finding("RNG-4", DR, "XorShift.__init__", "state width",
+                                    f"XorShift({seed}).next() call #{k + 1} returns {v!r}, outside [0, 2**32): the state words are not confined to 32 bits "
+                                    f"for every seed (widths after __init__: {state}), so the rejection sampling built on _XORSHIFT_DOMAIN_SIZE is wrong "
+                                    "(or does not terminate)", init.lineno)
+                        return None
+        except (Undecided, Raised) as ex:
+            rep.undecide("RNG-4", f"initial state widths unknown: {state}; evaluation: {ex}")
+            return None
+        rep.undecide("RNG-4", f"initial state widths unknown: {state} (no seed with an out-of-range output found)")
         return None
     bound = max(state.values())
     # inductive step: from widths <= bound, one call of next() keeps them <= bound
